@@ -58,19 +58,17 @@ impl Sig for Vec<u8> {
 
 impl Sig for Vec<u16> {
     fn get_sig(&self) -> Vec<u8> {
-        let mut c = self.clone();
-        let ptr = c.as_mut_ptr();
-        let new_len = c.len() * std::mem::size_of::<u16>();
-        unsafe { Vec::<u8>::from_raw_parts(ptr as *mut u8, new_len, new_len) }
+        // native endian bytes of the elements, in order (the former from_raw_parts on the buffer of a local clone
+        // returned freed memory and freed the buffer twice)
+        self.iter().flat_map(|x| x.to_ne_bytes()).collect()
     }
 } // end of impl Sig for <Vec<u16>>
 
 impl Sig for Vec<u32> {
     fn get_sig(&self) -> Vec<u8> {
-        let mut c = self.clone();
-        let ptr = c.as_mut_ptr();
-        let new_len = c.len() * std::mem::size_of::<u32>();
-        unsafe { Vec::<u8>::from_raw_parts(ptr as *mut u8, new_len, new_len) }
+        // native endian bytes of the elements, in order (the former from_raw_parts on the buffer of a local clone
+        // returned freed memory and freed the buffer twice)
+        self.iter().flat_map(|x| x.to_ne_bytes()).collect()
     }
 } // end of impl Sig for <Vec<u32>>
 
